@@ -383,30 +383,20 @@ Proof.
   eexists. split; [reflexivity|]. lia.
 Qed.
 
-(* DEALER's queue processor: a message it pops while the only peer's pipe stays full is LOST when
-   SNDTIMEO is positive (the blocking send times out, an empty batch is pushed back) ... *)
-Theorem dealer_processor_loses_refuted {M} i d (m : M) rest : 0 < d ->
-  proc_route (route_full i (Some d) WNever) m rest = (QEmpty :: rest, false)
-  /\ ~ proc_keeps (route_full i (Some d) WNever) m rest.
+(* DEALER's queue processor: whatever route_message answers, the popped message is handed over, back at the
+   front of the queue, or still held by the suspended call - never replaced by an empty batch *)
+Theorem dealer_processor_keeps {M} (route : outcome) (m : M) rest : proc_keeps route m rest.
+Proof.
+  clear. destruct route as [a t f|]; [|exact I].
+  destruct a, f; cbn; auto.
+Qed.
+(* in particular with a positive SNDTIMEO against a pipe that stays full (the case that used to lose it) *)
+Theorem dealer_processor_timeout_requeues {M} i d (m : M) rest : 0 < d ->
+  proc_route (route_full i (Some d) WNever) m rest = (QMsg m :: rest, false).
 Proof.
   clear fire_o fire_o_law. intros Hd. rewrite route_full_eq, owned_of_path, positive_path by (destruct i; auto).
-  unfold tokio_timeout. assert (E : proc_route (match Ret (expiry_answer (owned_variant i)) (fire d) Dropped with
-      | Ret AOk t f => Ret AOk t f | Ret AWouldBlock t f => Ret AWouldBlock t f | Ret a t _ => Ret a t Dropped | Hang => Hang end) m rest
-      = (QEmpty :: rest, false)) by (destruct i; reflexivity).
-  cbn [tokio_timeout]. split.
-  - destruct i; reflexivity.
-  - destruct i; cbn; intros [H|H]; discriminate.
+  unfold tokio_timeout. destruct i; reflexivity.
 Qed.
-(* ... and is kept whenever route_message answers Ok, hands the message back (SNDTIMEO = 0: always),
-   or is still waiting (-1 over tcp/ipc) *)
-Theorem dealer_processor_keeps_outside {M} (route : outcome) (m : M) rest :
-  match route with Ret AOk _ _ | Ret _ _ Returned | Hang => True | _ => False end -> proc_keeps route m rest.
-Proof.
-  clear. destruct route as [a t f|]; [|intros _; exact I].
-  destruct a, f; cbn; intros H; try contradiction; auto.
-Qed.
-Theorem dealer_processor_snd0_keeps {M} i w (m : M) rest : proc_keeps (route_full i (Some 0) w) m rest.
-Proof. clear. destruct i; cbn; auto. Qed.
 
 (* ================================================================== PART 3: recv *)
 
